@@ -22,6 +22,7 @@ from engine import plumbing as P
 from engine import witness as W
 from engine import lrules as L
 from engine import regions as RG
+from engine import sx
 from engine import terms as T
 
 LEVEL = "other"
@@ -379,6 +380,59 @@ def main(rep, tier, only):
         (rep.fail if why else rep.ok)("PAD", key, F.primary_site(fn), F.describe(fn)[:160], **({"why": why} if why else {"how": "null() + set"}))
     if n_init == 0:
         rep.broken("C10: bitfield::init is not instantiated")
+    # INIT (under MIRROR): element e is in init<Result>(f) exactly when f(e) converts to true -- decided on the paths of the
+    # instantiation whose predicate returns `unsigned` (a result that is only convertible to bool): for every enumerator in order the
+    # predicate is called once, and its result itself decides the membership (passed to set, or tested for truth); a comparison
+    # of the result with a constant (`f(e) == true`) is a different predicate for such a function
+    icfg = sx.Config(inline_prefixes=(), pure=("fcppt::enum_::make_range", BF + "object::null"), loop_bound=2)
+    seen_i = set()
+    for fn in db.fns(BF + "init"):
+        ta = fn.get("targs") or []
+        if len(ta) < 2 or "unsigned int" not in ta[1] or ta[0] in seen_i:
+            continue
+        seen_i.add(ta[0])
+        key = "init<%s>(non-bool predicate)" % ta[0].replace(BF, "").replace("drv_c::", "")
+        try:
+            ps = sx.Interp(db, icfg).paths(fn)
+        except sx.Unsupported as e:
+            rep.broken("C10 MIRROR %s: outside the interpreted fragment: %s" % (key, e))
+            continue
+        why = None
+        sizes = set()
+        for p_ in ps:
+            if p_.outcome[0] != "return":
+                continue
+            n = len([1 for d, v in p_.decisions if isinstance(d, tuple) and d and d[0] == "more" and v])
+            sizes.add(n)
+            calls = [(i, e) for i, e in enumerate(p_.events, 1) if e[0] == "call"]
+            sets = [(i, e) for i, e in enumerate(p_.events, 1) if e[0].split("<")[0] == BF + "object::set"]
+            if [sx.show(e[1][1]) for i, e in calls] != ["make_range()[%d]" % k for k in range(n)] or any(sx.show(e[1][0]) != fn["params"][0]["name"] for i, e in calls):
+                why = "for %d enumerators the predicate is called on %s, expected once on each enumerator in order" % (n, [sx.show(e[1][1]) for i, e in calls])
+                break
+            dec = [(d, v) for d, v in p_.decisions if not (isinstance(d, tuple) and d and d[0] == "more")]
+            truth = {}
+            for d, v in dec:
+                if isinstance(d, tuple) and d and d[0] == "ev" and any(i == d[1] for i, e in calls):
+                    truth[d[1]] = v
+                else:
+                    why = "membership is decided by `%s`; expected the predicate's result itself (converted to bool): for a predicate returning a non-bool value the comparison is a different test" % sx.show(d)
+                    break
+            if why:
+                break
+            for k, (ci, ce) in enumerate(calls):
+                mine = [(i, e) for i, e in sets if sx.show(e[1][1]) == "make_range()[%d]" % k]
+                if ci in truth:
+                    good = (len(mine) == 1 and sx.show(mine[0][1][1][2]) in ("1", "true")) if truth[ci] else (not mine or (len(mine) == 1 and sx.show(mine[0][1][1][2]) in ("0", "false")))
+                else:
+                    good = len(mine) == 1 and isinstance(mine[0][1][1][2], tuple) and mine[0][1][1][2][:2] == ("ev", ci)
+                if not good:
+                    why = "enumerator %d: the bit is set from %s, expected from the predicate's own result for that enumerator" % (k, [sx.show(e[1][2]) for i, e in mine])
+                    break
+            if why:
+                break
+        if not why and not ({0, 1, 2} <= sizes):
+            why = "not every range length (0, 1, 2 enumerators) has a complete path"
+        (rep.fail if why else rep.ok)("MIRROR", key, F.primary_site(fn), F.describe(fn)[:160], **({"why": why} if why else {"how": "bit e := bool(f(e)), every e once, in order"}))
     for fn in L.method_fns(db, BF + "object"):
         u = fn["_unit"]
         if fn.get("kind") == "ctor" and fn.get("ctor_kind") == "other":
